@@ -245,6 +245,12 @@ func c07Rows(c *c07Ctx, list []ast.Stmt, errVar string, isEnd func(ast.Stmt) (bo
 					if exprText(x.Rhs[0]) == "false" {
 						continue
 					}
+					if r, ok := x.Rhs[0].(*ast.Ident); ok {
+						if rl, ok := c.role[r.Name]; ok {
+							c.role[id.Name] = rl // another name for the same package
+							continue
+						}
+					}
 					if be, ok := x.Rhs[0].(*ast.BinaryExpr); ok && (be.Op == token.EQL || be.Op == token.NEQ) {
 						c.vars[id.Name] = c.cond(be)
 						continue
@@ -304,8 +310,12 @@ func genC07() {
 					if !ok {
 						continue
 					}
-					if r, ok := as.Rhs[k].(*ast.Ident); ok && r.Name == param {
-						c.role[id.Name] = "new"
+					if r, ok := as.Rhs[k].(*ast.Ident); ok {
+						if r.Name == param {
+							c.role[id.Name] = "new"
+						} else if rl, ok := c.role[r.Name]; ok {
+							c.role[id.Name] = rl // another name for the same entry
+						}
 					}
 					if _, p := c07Sel(as.Rhs[k]); len(p) == 1 && p[0] == "te" {
 						c.role[id.Name] = "old"
